@@ -7,6 +7,7 @@ import (
 	"os"
 	"path/filepath"
 	"text/template"
+	"unicode/utf8"
 
 	"github.com/gardenbed/charm/ui"
 	auto "github.com/moorara/algo/automata"
@@ -316,7 +317,12 @@ func formatRunes(runes []rune) string {
 	var b bytes.Buffer
 
 	for _, r := range runes {
-		fmt.Fprintf(&b, "'%c', ", r)
+		// A rune literal cannot represent an invalid code point (e.g. a surrogate half), a number can.
+		if utf8.ValidRune(r) {
+			fmt.Fprintf(&b, "%q, ", r)
+		} else {
+			fmt.Fprintf(&b, "%d, ", r)
+		}
 	}
 
 	if len(runes) > 0 {
